@@ -458,6 +458,19 @@ func TestC04SignedEndpoints(t *testing.T) {
 			var sig string
 			other := nodeIdent(4)
 			otherWallet := walletIdent(2)
+			ownSpelling := ""
+			if alt == "none" && rapid.IntRange(0, 3).Draw(rt, "ownSpelling") == 0 {
+				// the signer spells its own identity another way (hex case; node ids also with a 0x prefix) and signs
+				// that spelling: still its identity, the request must pass verification
+				spells := []string{"lower", "upper", "mixed"}
+				if !r.wallet {
+					spells = append(spells, "prefix")
+				}
+				ownSpelling = rapid.SampledFrom(spells).Draw(rt, "ownSpellingKind")
+				id = respell(id, ownSpelling)
+				signID = id
+				detail = "own spelling: " + ownSpelling
+			}
 			switch alt {
 			case "method":
 				signMethod = rapid.SampledFrom([]string{"vipnode_connect", "vipnode_update", "vipnode_peer", "vipnode_host", "vipnode_client", "pool_addNode", "pool_withdraw", "", "vipnode_Update"}).Filter(func(m string) bool { return m != r.method }).Draw(rt, "otherMethod")
@@ -627,7 +640,7 @@ func TestC04SignedEndpoints(t *testing.T) {
 			if alt == "none" && r.wallet && rapid.Bool().Draw(rt, "hexPrefix") {
 				// wallets usually send their signature with the 0x prefix (what eth_sign returns)
 				sig = "0x" + sig
-				detail = "0x-prefixed"
+				detail += " 0x-prefixed"
 			}
 			before := f.s.digest()
 			err := f.submit(r, sig, id, nonce, arg, viaRPC)
